@@ -249,12 +249,12 @@ def callFromStack (code : List Instr) : Nat → Val → Nat → St → Res St
   | fuel + 1, f, n, st =>
     match f with
     | .builtin b =>                                                   -- goCall.CallFromStack
-      if n > b.arity then .error .error
+      if n > b.want n then .error .error
       else match splitArgs st.stack n with
         | none => .error .panic
         | some (args, below) =>
-          if n == b.arity then
-            match convertAll b.params args with
+          if n == b.want n then
+            match convertAll (b.paramsAt n) args with
             | .error e => .error e
             | .ok cs => match b.step cs with
               | .value v => .ok { st with stack := v :: below }
